@@ -3,8 +3,8 @@ CONSTANTS
   P = 4
   EP = 2
   G = 2
-  MaxSlot = 67
-  StartSlots = {0}
+  MaxSlot = 43
+  StartSlots = {0, 5}
   Mode = "design"
   RecMax = 100
   RecKeep = 32
@@ -12,10 +12,10 @@ CONSTANTS
   BidKeep = 32
   KRoots = 8
   KBids = 64
-  Menu = {{}, {1}, {0, 3}, {0, 2, 3}, {1, 2, 3}}
-  Moods = {"quiet", "plain", "plain", "reorg", "reorg"}
-  MaxReorgs = 1
-  Focus = FALSE
+  Menu = {{}, {0, 3}, {0, 2, 3}, {1, 2, 3}, {0, 1, 2, 3}}
+  Moods = {"plain", "reorg", "reorg", "reorg"}
+  MaxReorgs = 3
+  Focus = TRUE
   Fams = {"all"}
 INVARIANTS Emit AttestedBounded SubsBounded RootsBounded RecordsBounded JobsBounded PendingExact
 CHECK_DEADLOCK FALSE
